@@ -112,6 +112,29 @@ CHECKS = {
              "strictly increasing virtual clock",
         technique="TLA+ reference + linearizability trace spec, TLC trace validation; TLC-generated schedules",
         design="DESIGN.md §5 C19"),
+    "C06": dict(
+        level="model_checking",
+        text="NunDisk (implementation-shaped: entries with persistence state and remembered record position, "
+             "keys file as record sequence with generations, per-state snapshot plan, reclaim rewrite, loader) "
+             "is checked by TLC exhaustively to the history bound for RestoreExact / NotCorrupt / "
+             "PositionsValid and generates one history per (abstract state, operation); each history and "
+             "seeded random ones (all three conflict strategies, values of varied byte length) run on the "
+             "real node with real restarts; TLC validates against Trace_Restore (dump after restart = dump "
+             "at the last completed snapshot incl. id and strategy).",
+        note="declutter tick driven explicitly; restart = start_db sequence on the same directory (probed in "
+             "a child process first because a damaged file can abort the loader)",
+        technique="TLA+ reference (persisted = last completed snapshot) + TLC trace validation; TLC-generated histories",
+        design="DESIGN.md §5 C06"),
+    "C12": dict(
+        level="model_checking",
+        text="NunOplog transcribes read_operations_since_from_file into TLA+ and TLC compares it with the "
+             "reference query on every time pattern of 0-9 records x every since, and every key/kind "
+             "assignment of 0-4 records; the same families plus random logs are written as real record "
+             "files by the real writer (also with rotation), queried through the real functions, and TLC "
+             "validates each result (no miss, right labels, last_op_time, no record lost by rotation).",
+        note="time stamps supplied by the harness; extra older entries are allowed; at most 10 files",
+        technique="TLA+ transcription vs reference (TLC exhaustive) + TLC trace validation of real query results",
+        design="DESIGN.md §5 C12"),
 }
 
 NOT_YET = "check not built yet (build in progress; see DESIGN.md §8 build order)"
